@@ -1254,6 +1254,46 @@ def _in_except(node, fn):
     return False
 
 
+# ------------------------------------------------------------------------ S10
+def _os_size_uses(tree):
+    """calls that ask the operating system about the file behind a stream, and definitions of fileno()"""
+    out = []
+    for n in ast.walk(tree):
+        if isinstance(n, ast.Call):
+            d = dotted(n.func) if isinstance(n.func, (ast.Attribute, ast.Name)) else None
+            if d in ("os.fstat", "os.stat", "os.path.getsize", "os.lstat", "fstat", "getsize") or (isinstance(n.func, ast.Attribute) and n.func.attr == "fileno"):
+                out.append(n)
+        if isinstance(n, (ast.FunctionDef, ast.AsyncFunctionDef)) and n.name == "fileno":
+            out.append(n)
+    return out
+
+
+def rule_S10(ctx):
+    """a view's length is what the view says (seek to its end, tell): the operating system only knows the size of the raw file at the
+    bottom of the stack - not of an offset window, a 2048-of-2352 sector view or an MDX payload laid over it"""
+    sp = ctx.fn(STREAM, "StreamSizeConstruct._parse", "S10")
+    st = sp.args.args[1].arg
+    n_ret = 0
+    ok, det = True, ""
+    for p in run_paths(ctx, sp, rule="S10", include_exc=True, limit=2000):
+        if p.end != "return":
+            continue
+        n_ret += 1
+        keys = [evaluator(ctx, sp, e).ev(c).key() for c, e, s_ in calls_on(p)]
+        want = [f"{st}.tell()", f"{st}.seek(0,SEEK_END)", f"{st}.tell()", f"{st}.seek({st}.tell(),SEEK_SET)"]
+        if keys != want or p.ret is None or p.ret.key() != f"{st}.tell()":
+            ok, det = False, f"a returning path does {keys[:6]} and returns {p.ret.key() if p.ret is not None else None}"
+    ctx.ob("S10", sp, "the stream size handed to the parsers is measured on the stream itself: tell, seek to the end, tell, seek back", ok and n_ret >= 1, det, inst="stream-size")
+    hits = []
+    for m in ctx.prog.modules.values():
+        for n in _os_size_uses(m.tree):
+            hits.append((m.path, n))
+    ctx.ob("S10", hits[0][1] if hits else sp, "no stream of the package exposes, and no code asks for, the size of the operating-system file behind a view", not hits,
+           "" if not hits else f"{hits[0][0]}:{hits[0][1].lineno} `{norm(hits[0][1])[:60]}`", inst="no-os-size", **({"file": hits[0][0], "qualname": "<module>"} if hits else {}))
+    if len(_os_size_uses(ast.parse("import os\nclass V:\n    def fileno(self):\n        return self.s.fileno()\ndef f(s):\n    return os.fstat(s.fileno()).st_size\n"))) < 3:
+        raise AnalysisError("S10", "positive-control", "operating-system size queries are not recognised")
+
+
 # ------------------------------------------------------------------------ S9
 def rule_S9(ctx):
     tp = "smpl_extract/transcoder.py"
